@@ -8,6 +8,28 @@ import shutil
 import stat as _stat
 import tempfile
 
+import itertools as _itertools
+
+# diagnostic (never set by a registered command): VERIF_FS_SKEW=<seconds> makes every scratch tree of the file-system
+# backends appear to live <seconds> later than the previous one of the same process - what the operating system's clock
+# does between two runs of a case, without waiting for it.  A check that alarms under it compares the kernel's
+# timestamps of two separate runs (DESIGN.md §2.3 "the file systems' own clock").
+_SKEW_STEP = float(os.environ.get("VERIF_FS_SKEW", "0") or 0)
+_SKEW_COUNT = _itertools.count(1)
+
+
+class _SkewedStat:
+    def __init__(self, st, skew):
+        for k in dir(st):
+            if k.startswith("st_"):
+                v = getattr(st, k)
+                if k in ("st_atime", "st_mtime", "st_ctime"):
+                    v = v + skew
+                elif k in ("st_atime_ns", "st_mtime_ns", "st_ctime_ns"):
+                    v = v + int(skew * 10 ** 9)
+                setattr(self, k, v)
+
+
 OPS = ("exists", "is_dir", "is_file", "mkdir", "rmdir", "unlink", "list", "stat",
        "_open", "seek", "read", "write", "close", "rename")
 
@@ -42,6 +64,7 @@ class SpyControl:
         self.wbuf = {}              # id(file) -> [chunks]
         self.op_job = None          # set of ops that first wait for an executor job (exists/is_file/is_dir/stat ...)
         self.job_first = False      # the job is waited for before the call is counted / an injected failure is raised
+        self.skew = _SKEW_STEP * next(_SKEW_COUNT) if _SKEW_STEP else 0.0
 
     def leaked(self):
         """paths of handles aioftp received and that are not closed (a real file
@@ -211,6 +234,8 @@ def make_spy(base, ctl):
                 await asyncio.get_running_loop().run_in_executor(None, _op_job)
             r = await super().stat(path)
             await _after(ctl, "stat", self)
+            if ctl.skew and isinstance(r, os.stat_result):
+                r = _SkewedStat(r, ctl.skew)
             return r
 
         @ue
